@@ -486,6 +486,10 @@ impl DefaultAuthor {
         if docs_store.export_author(author_id).await?.is_none() {
             bail!("The author does not exist");
         }
+        // The author may so far only live in the store's open write transaction. Make it durable
+        // *before* the default author file names it (as `load` does for a new author): a file that
+        // names an author the store does not have keeps the engine from starting.
+        docs_store.flush_store().await?;
         self.storage.persist(author_id).await?;
         *self.value.write().unwrap() = author_id;
         Ok(())
